@@ -3,6 +3,8 @@ mod c02;
 mod c03;
 mod c09;
 mod c14;
+mod c15;
+mod c16;
 mod corpus;
 mod features;
 mod refeval;
@@ -61,6 +63,8 @@ fn main() {
         "C03" => c03::run(&ctx),
         "C09" => c09::run(&ctx),
         "C14" => c14::run(&ctx),
+        "C15" => c15::run(&ctx),
+        "C16" => c16::run(&ctx),
         _ => usage(),
     };
     std::process::exit(code);
@@ -72,6 +76,8 @@ fn replay(id: &str, v: &serde_json::Value) -> i32 {
         "C03" => c03::replay(v),
         "C09" => c09::replay(v),
         "C14" => c14::replay(v),
+        "C15" => c15::replay(v),
+        "C16" => c16::replay(v),
         _ => {
             eprintln!("no replay for {id}");
             3
